@@ -161,7 +161,8 @@ class Vertex(base.BaseObject):
         if args in self.__qa_nb_cache:
             self._cache_stat(0)
 
-            return self.__qa_nb_cache[args]
+            # hand out a copy -- the caller may do what they like with it
+            return list(self.__qa_nb_cache[args])
 
         self._cache_stat(1)
         return self._QA_NB_INVALID
@@ -208,7 +209,8 @@ class Vertex(base.BaseObject):
         if not self.NEIGHBOR_CACHING:
             return
         self._cache_stat(3)
-        self.__qa_nb_cache[args] = answer
+        # store a copy; ``answer`` itself is returned to the caller
+        self.__qa_nb_cache[args] = list(answer)
 
     def add_to_link(self, link: Link):
         """
